@@ -218,6 +218,7 @@ class Broker:
         self.up = True
         self.links = []
         self.stale_md = None   # frozen metadata view (lagging broker) or None
+        self.listed_while_down = False   # unreachable, but the controller has not noticed: metadata still lists it as leader
 
     # listener protocol
     def accept(self, link):
@@ -243,6 +244,7 @@ class Broker:
 
     def come_up(self):
         self.up = True
+        self.listed_while_down = False
 
 
 class SimCluster:
@@ -334,7 +336,7 @@ class SimCluster:
 
     def metadata_view(self):
         return {"leaders": dict(self.leaders), "topics": {t: len(l) for t, l in self.topics.items()},
-                "up": {n: b.up for n, b in self.brokers.items()}}
+                "up": {n: (b.up or b.listed_while_down) for n, b in self.brokers.items()}}
 
     # ---------------------------------------------------------------- request entry
     def handle(self, broker, link, frame):
